@@ -10,7 +10,7 @@ KH == [c \in Classes |-> IF c = "large" THEN I(4) ELSE I(1)]
 Hd == {I(0), I(1), I(2)}
 MCBegin == \E k \in {"humans", "animals"} : hb.kind = "none" /\
    BeginS([kind |-> k, round |-> IF k = "humans" THEN 3 ELSE 2, n |-> 2, kcalHead |-> KH, wDistMeat |-> I(50), wDistMilk |-> Zero,
-           wRetail |-> I(50), milkYield |-> I(12), addMilk |-> TRUE, addMeat |-> TRUE])
+           wRetail |-> I(50), milkYield |-> I(12), addMilk |-> TRUE, addMeat |-> TRUE, heads |-> <<>>])
 Faith(a, b, p) == Mul(Add(Mul(a, KH["large"]), Mul(b, KH["pig"])), Dec(5000, 1))
 MCMonth == \E a \in Hd, b \in Hd, p \in Hd, shift \in {I(0), I(1)}, fe \in {I(0), I(1)}, fc \in {I(0), I(1)} :
    /\ hb.kind # "none" /\ hmon < 2
